@@ -69,7 +69,34 @@ add_capture(std::string name, CaptureType type, CPPExpression *initializer) {
  */
 bool CPPClosureType::
 is_fully_specified() const {
-  return CPPFunctionType::is_fully_specified();
+  return CPPType::is_fully_specified() &&
+    (_return_type == nullptr || _return_type->is_fully_specified()) &&
+    (_parameters == nullptr || _parameters->is_fully_specified());
+}
+
+/**
+ * There is nothing to substitute in a closure type: it is unique to the
+ * lambda expression it belongs to.
+ */
+CPPDeclaration *CPPClosureType::
+substitute_decl(CPPDeclaration::SubstDecl &, CPPScope *, CPPScope *) {
+  return this;
+}
+
+/**
+ * See substitute_decl().
+ */
+CPPType *CPPClosureType::
+resolve_type(CPPScope *, CPPScope *) {
+  return this;
+}
+
+/**
+ * See substitute_decl().
+ */
+bool CPPClosureType::
+is_tbd() const {
+  return false;
 }
 
 /**
@@ -165,11 +192,33 @@ output(std::ostream &out, int indent_level, CPPScope *scope, bool complete) cons
 }
 
 /**
+ * Formats a variable of the closure type, as in "decltype(x) y;".
+ */
+void CPPClosureType::
+output_instance(std::ostream &out, int indent_level, CPPScope *scope,
+                bool complete, const std::string &prename,
+                const std::string &name) const {
+  output(out, indent_level, scope, complete);
+  out << " " << prename << name;
+}
+
+/**
  *
  */
 CPPDeclaration::SubType CPPClosureType::
 get_subtype() const {
   return ST_closure;
+}
+
+/**
+ * A closure type is the type of an object that can be called, not the type of
+ * a function.  It shares the members of CPPFunctionType, but it may lack a
+ * return type and a parameter list (as in "[]{}"), which code that handles
+ * function types takes for granted; so we do not pass for one.
+ */
+CPPFunctionType *CPPClosureType::
+as_function_type() {
+  return nullptr;
 }
 
 /**
